@@ -117,7 +117,9 @@ def main(run):
                     "weighted values are value*weight (C01); floats restricted to integer-valued values (exact arithmetic, incl. the mean in median)"]
     run.assumptions += ["fitness values are finite (no NaN)", "all individuals have the same number of objectives",
                         "log-time variant: at least 2 objectives, non-empty population"]
+    t_start = time.time()
     run.build_props()
+    t_built = time.time()
     rng = run.rng
 
     classes = {}
@@ -261,7 +263,19 @@ def main(run):
         if failed:
             run.note_case(case, n >= 2)
             return
-        add("CSort %s %s" % (cwl(ws_impl), clist(calls)), case, n >= 2)
+        # the statement says "leaving ... the input untouched": the caller's list (same objects, same order) and the
+        # fitnesses read after all the calls are part of the correspondence term and of the oracle
+        after = [idmap.get(id(x), n) for x in pop]
+        try:
+            wafter = [to_int(x.fitness.wvalues) for x in pop]
+        except Exception:
+            wafter = None
+        if after != list(range(n)) or wafter != ws:
+            run.oracle_violation("the input population (list order, objects or fitness values) was modified by the sort", case,
+                                 observed={"positions": after, "wvalues": wafter})
+            if wafter is None or any(len(t) != len(w) for t in wafter):
+                return
+        add("CSort %s %s %s %s" % (cwl(ws_impl), clist(calls), cnatl(after), cwl(wafter)), case, n >= 2)
 
     # -------- helper-level tracing inside real runs of sortLogNondominated --------
     helper_budget = {"A": run.scale(250, 2500), "B": run.scale(250, 2500), "sA": run.scale(150, 1500),
@@ -542,7 +556,10 @@ def main(run):
     run.extra_cov["case_kinds"] = {}
     for c in cases:
         run.extra_cov["case_kinds"][c["kind"]] = run.extra_cov["case_kinds"].get(c["kind"], 0) + 1
+    t_gen = time.time()
     run.correspond("all", "C04", terms, cases, shard=run.scale(300, 400))
+    run.extra_cov["phase_seconds"] = {"build_props": round(t_built - t_start, 1), "implementation_and_oracle": round(t_gen - t_built, 1),
+                                      "correspondence_coqc": round(time.time() - t_gen, 1)}
 
     # extra search for a failing input if a proof or the correspondence broke (oracle only)
     def search(run_):
